@@ -137,6 +137,10 @@ def _elem_type(ak, arr):
     return m.group(1) if m else None
 
 
+# operations that only move values around: integers beyond TLC's 32 bits travel through them as opaque tokens
+MOVE_OPS = {"concat0", "concat2", "concat3", "concatperm", "same", "rt_buffers", "rt_pickle", "rt_arrow", "rt_json", "rt_iter", "bcperm"}
+
+
 def _rekey(w, T):
     """records of the appended array written in the field order of the first array's records when both have the same
     field names: the merged array keeps the FIRST operand's order; which order it is, is not part of any property"""
@@ -306,7 +310,8 @@ def h_chain(case, pick, st, stats):
         if ty is None or "unknown" in ty or len(ty) > 1200:
             break                                    # (a union of dozens of record types, from zipping unions repeatedly, is beyond the int8 tags: the chain stops)
         try:
-            ev = {"op": op, "v": trmod._tag(cur_list), "T": trmod.parse_type(ty)}
+            big_ok = op in MOVE_OPS
+            ev = {"op": op, "v": trmod._tag(cur_list, big_ok), "T": trmod.parse_type(ty)}
         except (ValueError, TypeError, AssertionError, AttributeError):
             break                                    # outside the model's domain (strings, unions, big numbers): the chain stops
         if op in ("field", "withfield") and ('"%s":' % a["key"] not in ty and not (a["key"].isdigit() and "(" in ty)):
@@ -326,7 +331,7 @@ def h_chain(case, pick, st, stats):
                 B = ak.Array(ext._box(_fix(json.loads(json.dumps(a.pop("other"))))))
                 if not ak.is_valid(B):
                     continue
-                a["w"] = trmod._tag(ak.to_list(B))
+                a["w"] = trmod._tag(ak.to_list(B), True)
                 if _rekey(a["w"], ev["T"]) != a["w"]:
                     continue                         # same field names in another order: which order the result shows is nobody's promise (concatperm asks the by-name question)
                 a["_B"] = B
@@ -401,7 +406,7 @@ def h_chain(case, pick, st, stats):
         try:
             if len(json.dumps(outl)) > trmod.MAX_VALUE_JSON:
                 break                                    # combinatorial blow-up: the chain stops before TLC's JSON reader does
-            ev.update(ok=1, out=trmod._tag(outl))
+            ev.update(ok=1, out=trmod._tag(outl, op in MOVE_OPS))
         except (ValueError, TypeError):
             break
         meta["lib"] = json.dumps(outl)[:400]
